@@ -381,19 +381,23 @@ func (k *Kernel) enabledActions() []action {
 	defer k.mu.Unlock()
 	var acts []action
 	// grants: for each free mutex with waiters
+	// canonical order of waiters: goroutine name, lock site, then goroutine creation order (goroutine ids
+	// grow in creation order, and since only one lal goroutine runs at a time creation order is
+	// deterministic even though the absolute ids are not)
 	sort.SliceStable(k.lockReqs, func(i, j int) bool {
 		a, b := k.lockReqs[i], k.lockReqs[j]
 		if a.gname != b.gname {
 			return a.gname < b.gname
 		}
-		return a.site < b.site
+		if a.site != b.site {
+			return a.site < b.site
+		}
+		return a.gid < b.gid
 	})
 	contended := 0
 	for i, r := range k.lockReqs {
 		if i > 0 && k.lockReqs[i-1].gname == r.gname && k.lockReqs[i-1].site == r.site {
-			// two indistinguishable waiters: fail loudly, determinism cannot be claimed
-			k.trace = append(k.trace, "nondeterministic-tie "+r.gname+" "+r.site)
-			k.Stats.Probes["nondeterministic_tie"]++
+			k.Stats.Probes["waiters_ordered_by_creation"]++
 		}
 		if _, held := k.owners[r.m]; held {
 			contended++
